@@ -308,14 +308,12 @@ fn c34_server() {
     kani::cover!(!from_wire && off == 512 && len == 4, "just past the end");
 }
 
-/// `ReferenceIdRequest::new` (used by the client): Some iff len % 4 == 0 and offset+len <= 512.
-/// The sum is computed in u16 by the code: inputs whose sum exceeds u16::MAX are outside this
-/// harness (dev profile: overflow panic; see c34_req_new_kf_u16_wrap for the release behaviour).
+/// `ReferenceIdRequest::new` (used by the client), every u16 length and offset: Some iff
+/// len % 4 == 0 and offset + len <= 512 in exact arithmetic (oracle in u32).
 #[kani::proof]
 fn c34_req_new() {
     let len: u16 = kani::any();
     let off: u16 = kani::any();
-    kani::assume(len as u32 + off as u32 <= u16::MAX as u32);
     let r = ReferenceIdRequest::new(len, off);
     let want = len % 4 == 0 && len as u32 + off as u32 <= 512;
     assert!(r.is_some() == want, "request constructor validates alignment and range");
@@ -326,15 +324,23 @@ fn c34_req_new() {
     kani::cover!(!want && len % 4 == 0, "range refused");
 }
 
-/// Expected to FAIL on the unchanged tree (candidate finding): for len+offset > 65535 the u16 sum
-/// wraps in release builds (panics in dev builds) and an out-of-range request is constructed.
+/// The region that used to wrap around (fixed in /repo 68ebe1f: the sum was computed in u16, so
+/// e.g. new(65532, 8) panicked in dev builds and returned Some in release builds): for every
+/// len/offset the result is Some iff aligned and in range, and whenever len + offset exceeds
+/// u16::MAX no request is constructed and nothing overflows (Kani's overflow checks are on).
 #[kani::proof]
-fn c34_req_new_kf_u16_wrap() {
+fn c34_req_new_wide() {
     let len: u16 = kani::any();
     let off: u16 = kani::any();
-    kani::assume(len as u32 + off as u32 > u16::MAX as u32);
     let r = ReferenceIdRequest::new(len, off);
-    assert!(r.is_none(), "a request beyond the 512-byte filter is never constructed");
+    let sum = len as u32 + off as u32;
+    assert!(r.is_some() == (len % 4 == 0 && sum <= 512), "Some iff aligned and inside the 512-byte filter (exact arithmetic)");
+    if sum > u16::MAX as u32 {
+        assert!(r.is_none(), "a request beyond the 512-byte filter is never constructed");
+    }
+    kani::cover!(sum > u16::MAX as u32 && len % 4 == 0, "sum beyond u16::MAX, aligned length (formerly wrapped)");
+    kani::cover!(len == 65532 && off == 8, "the former counterexample new(65532, 8)");
+    kani::cover!(r.is_some() && off == 512, "empty request at the end of the filter");
 }
 
 /// The ten 12-bit values of a server id (< 4096 each; reachable ids are also sorted and distinct,
